@@ -34,24 +34,28 @@ from ..tlc import cfg
 NEEDS_EXT = True
 
 ALL_OM, ALL_CURV, ALL_H = set(range(1, 6)), set(range(1, 16)), set(range(1, 11))
-BASE_KINDS = {"list", "f4", "f8", "i8", "strided"}
+ALL_Q = {"Dc", "Dm", "Da", "Dl", "sigmacritinv", "Ez_inverse", "dV", "distmod"}
+ALL_DT = {"f8", "f4", "i8", "i4", ">f8", ">f4", ">i8"}
+ALL_LAY = {"contig", "strided", "reversed", "zerod", "f2d"}
 BOUNDS = {
     "quick": dict(
         ctor=dict(OmIdx=ALL_OM, CurvIdx=ALL_CURV, HIdx=ALL_H, HMix=False),
         scalar=dict(OmIdx={1, 2, 3, 4}, CurvIdx={1, 3, 4, 5, 6, 9, 11}, HIdx={2, 3, 4, 5, 6, 8}, HMix=True,
                     ZIdx={1, 3, 5, 7, 8, 12, 14}),
         copy=dict(OmIdx={2, 3, 5}, CurvIdx={1, 2, 4, 5, 9, 11, 12, 13, 14, 15}, HIdx={1, 2, 5, 6, 9}, HMix=True),
-        dispatch=dict(Kinds=BASE_KINDS, MaxLen=3),
+        # every representation of either argument with every quantity in every call form; partners by covering design
+        dispatch=dict(Quants=ALL_Q, Dts=ALL_DT, Lays=ALL_LAY, MaxLen=3, Pairing="cover"),
         nrandom=300),
     "thorough": dict(
         ctor=dict(OmIdx=ALL_OM, CurvIdx=ALL_CURV, HIdx=ALL_H, HMix=False),
         scalar=dict(OmIdx={1, 2, 3, 4}, CurvIdx=ALL_CURV, HIdx={2, 5, 6}, HMix=False,
                     ZIdx={1, 2, 3, 4, 5, 7, 8, 10, 11, 12, 14, 15, 17}),
         copy=dict(OmIdx=ALL_OM, CurvIdx=ALL_CURV, HIdx=ALL_H, HMix=False),
-        dispatch=dict(Kinds=BASE_KINDS | {"reversed", "f4strided", "bigendian", "tuple"}, MaxLen=3),
+        dispatch=dict(Quants=ALL_Q, Dts=ALL_DT, Lays=ALL_LAY, MaxLen=3, Pairing="full"),      # the full product
         nrandom=6000),
 }
-DEFAULTS = dict(OmIdx={1}, CurvIdx={1}, HIdx={1}, HMix=False, ZIdx={1}, ChainLen=3, Kinds={"f8"}, MaxLen=1, DoExport=False,
+DEFAULTS = dict(OmIdx={1}, CurvIdx={1}, HIdx={1}, HMix=False, ZIdx={1}, ChainLen=3, Quants={"Dc"}, Dts={"f8"}, Lays={"contig"}, MaxLen=1,
+                Pairing="full", DoExport=False,
                 Deviate=False)
 
 # the three cosmologies the dispatch machine is run on (flat, open, closed)
@@ -166,7 +170,8 @@ def run_dispatch(item):
     A, B = lat.concretise(sa, 0), lat.concretise(sb, 1)
     snap = [x.tobytes() if isinstance(x, np.ndarray) else repr(x) for x in (A, B)]
     f = getattr(obj, q)
-    pairs = c["expect"]["pairs"]
+    live = sorted((e for e in c["allowed"] if e["kind"] != "rejected"), key=lambda e: (e["kind"], len(e["pairs"])))
+    pairs = live[0]["pairs"] if live else []
     obs = {"kind": "rejected", "len": 0, "eq": [], "err": "none"}
     with warnings.catch_warnings():
         warnings.simplefilter("ignore")
@@ -174,14 +179,16 @@ def run_dispatch(item):
             try:
                 res = f(A) if B is None else f(A, B)
                 if isinstance(res, np.ndarray) and res.ndim >= 1:
-                    obs["kind"], vals = "array", [float(v) for v in res.ravel()]
+                    obs["kind"], vals = "array", [float(v) for v in res.ravel()]      # C order
                 else:
                     obs["kind"], vals = "scalar", [float(res)]
                 obs["len"] = len(vals)
+                # the allowed outcome the code took (kind and length); its pairs say which scalar calls to compare with
+                fit = [e for e in live if e["kind"] == obs["kind"] and len(e["pairs"]) == len(vals)]
+                pairs = fit[0]["pairs"] if fit else pairs
                 for k, pr in enumerate(pairs[:len(vals)]):
-                    xs = (lat.element(sa["kind"], 0, pr[0]),) if B is None else \
-                         (lat.element(sa["kind"], 0, pr[0]), lat.element(sb["kind"], 1, pr[1]))
-                    obs["eq"].append(_bits(vals[k]) == _bits(f(*xs)))        # two implementation outputs
+                    xs = (lat.element(sa, 0, pr[0]),) if B is None else (lat.element(sa, 0, pr[0]), lat.element(sb, 1, pr[1]))
+                    obs["eq"].append(_bits(vals[k]) == _bits(f(*xs)))        # two implementation outputs, same VALUES
             except Exception as e:  # noqa
                 obs = {"kind": "rejected", "len": 0, "eq": [], "err": type(e).__name__}
     frame_ok = snap == [x.tobytes() if isinstance(x, np.ndarray) else repr(x) for x in (A, B)]
@@ -261,9 +268,23 @@ def _argclass(args, clause=""):
     return curv + "," + hub if clause == "constructor_rejected" else curv
 
 
+_CLASS_ORDER = ("byteswapped", "f2d", "zerod", "reversed", "strided", "converted", "f8", "npscalar", "pyint", "scalar")
+
+
 def _shapeclass(s):
-    k = s["kind"]
-    return k if k in ("scalar", "absent", "f8") else ("strided" if "strided" in k or k == "reversed" else "converted")
+    """structural class of one argument representation"""
+    cls = s["cls"]
+    if cls in ("pyfloat", "absent"):
+        return "scalar"
+    if cls in ("pyint", "npscalar"):
+        return cls
+    if cls in ("list", "tuple"):
+        return "converted"
+    if s["dt"].startswith(">"):
+        return "byteswapped"
+    if s["lay"] != "contig":
+        return s["lay"]
+    return "f8" if s["dt"] == "f8" else "converted"
 
 
 def signature(r, clause):
@@ -276,7 +297,7 @@ def signature(r, clause):
         if clause == "mismatched_lengths_not_rejected":
             return "%s|%s|array,array" % (r["q"], clause)
         cls = {_shapeclass(r["sa"]), _shapeclass(r["sb"])}        # the most exotic array class involved
-        top = next((k for k in ("strided", "converted", "f8", "scalar") if k in cls), "scalar")
+        top = next((k for k in _CLASS_ORDER if k in cls), "scalar")
         return "%s|%s|%s" % (r["q"], clause, top)
     if t == "copy":
         bad = next(((k, s) for k, s in zip(r["chain"], r["steps"]) if s["err"] != "none" or not s["same_params"]
@@ -420,11 +441,11 @@ def run(ctx):
             cfg_text=cfg(constants=_consts(**mech_copy), next_="NextCopy", invariants=["MechCopyRefines", "MechNormRefines"]),
             workers=W, require=["Construct", "CopyAct"], timeout=3000)
     ctx.tlc("CosmoMC.tla", what="dispatch ladder + C loops: MechDispatchRefines",
-            cfg_text=cfg(constants=_consts(**B["dispatch"]), next_="NextDispatch", invariants=["MechDispatchRefines"]),
+            cfg_text=cfg(constants=_consts(**B["dispatch"]), next_="NextDispatch", invariants=["MechDispatchRefines", "RepsSound"]),
             workers=W, require=["ChooseQ", "ChooseSA", "ChooseSB", "Classify", "Convert", "Loop", "Finish"], timeout=3000)
     # 1b. the invariants bite: a pickle that drops the explicit omega_l / a loop bound taken from the other array
     r = ctx.tlc("CosmoMC.tla", what="self-test: deviating mechanisms violate the refinement invariants",
-                cfg_text=cfg(constants=_consts(Deviate=True, OmIdx={2}, CurvIdx={1, 5}, HIdx={2}, Kinds={"f8"}, MaxLen=2), next_="Next",
+                cfg_text=cfg(constants=_consts(Deviate=True, OmIdx={2}, CurvIdx={1, 5}, HIdx={2}, Quants={"Dc"}, Dts={"f8"}, Lays={"contig"}, MaxLen=2), next_="Next",
                              invariants=["MechCopyRefines", "MechDispatchRefines"]),
                 workers=1, allow_violation=True, coverage=False, continue_=True, timeout=3000)     # 1 worker: report order is deterministic
     if not {"MechCopyRefines", "MechDispatchRefines"} <= set(r.violated):
@@ -434,12 +455,12 @@ def run(ctx):
     ctor_cases, _ = export(ctx, "export constructor cases", "NextCtor", "ExportCtor", _consts(**B["ctor"]))
     scal_cases, idents = export(ctx, "export scalar cases", "NextScalar", "ExportScalar", _consts(**B["scalar"]), "OmIdx")
     copy_cases, _ = export(ctx, "export copy chains", "NextCopy", "ExportCopy", _consts(**B["copy"]), "OmIdx")
-    disp_cases, _ = export(ctx, "export dispatch cases", "NextDispatchExport", "ExportDispatch", _consts(**B["dispatch"]))
+    disp_cases, _ = export(ctx, "export dispatch cases", "NextDispatchExport", "ExportDispatch", _consts(**B["dispatch"]), "Quants")
     if not idents:
         raise MachineryError("identity catalogue not exported")
     IDENTS.clear()
     IDENTS.update({d["name"]: d for d in idents[0]})
-    disp_cases = [dict(c, ck=k) for c in _tag(disp_cases, "dispatch") for k in range(len(DISPATCH_COSMO))]
+    disp_cases = [dict(c, ck=k % len(DISPATCH_COSMO)) for k, c in enumerate(_tag(disp_cases, "dispatch"))]   # flat / open / closed in turn
     # 2b. seeded cases on a finer lattice; TLC derives their exact side
     rnd_cases = derive(ctx, random_cases(ctx.seed, B["nrandom"]), "derive exact values for %d seeded cases" % B["nrandom"])
     allc = _tag(ctor_cases, "ctor") + _tag(scal_cases, "scalar") + _tag(copy_cases, "copy") + disp_cases + _tag(rnd_cases, "scalar")
@@ -448,7 +469,7 @@ def run(ctx):
             (len(items), len(ctor_cases), len(scal_cases), len(copy_cases), len(disp_cases), len(rnd_cases)))
     recs = pmap(run_any, items)
     for r in recs:
-        ctx.count({k: v for k, v in r["case"].items() if k not in ("outs", "expect")})
+        ctx.count({k: v for k, v in r["case"].items() if k not in ("outs", "allowed")})
     # non-vacuity (spec side): every identity of the catalogue is demanded (or accepted as alternative) by some exported case
     demanded = set()
     for c in allc:
@@ -482,10 +503,11 @@ def run(ctx):
                 worst_units[k] = max(worst_units.get(k, 0), r["res"][k][0])
     ctx.rule = ("every constructor-argument combination of CosmoMC's rational grid (%d), %d (cosmology, zmin, zmax) cases incl. "
                 "reversed pairs with every applicable identity of Cosmo.tla's catalogue, %d copy/pickle chains of length <= 3, "
-                "%d (quantity, shape, shape) dispatch cases x %d cosmologies - all exported by TLC - plus %d seeded cases on a "
-                "finer lattice; a case is distinct by its abstract record" %
-                (len(ctor_cases), len(scal_cases), len(copy_cases), len(disp_cases) // len(DISPATCH_COSMO),
-                 len(DISPATCH_COSMO), len(rnd_cases)))
+                "%d (quantity, representation of zmin, representation of zmax) dispatch cases (%s of 108 representations: python / numpy "
+                "scalars, lists, tuples, ndarrays f8 f4 i8 i4 >f8 >f4 >i8 x contiguous / strided / reversed / 0-d / Fortran 2-d, lengths 1..3) "
+                "- all exported by TLC - plus %d seeded cases on a finer lattice; a case is distinct by its abstract record" %
+                (len(ctor_cases), len(scal_cases), len(copy_cases), len(disp_cases),
+                 "covering design" if B["dispatch"]["Pairing"] == "cover" else "full product", len(rnd_cases)))
     ctx.exhaustive = True
     ctx.note(bounds={k: ({kk: sorted(vv) if isinstance(vv, set) else vv for kk, vv in v.items()} if isinstance(v, dict) else v)
                      for k, v in B.items()},
@@ -561,7 +583,8 @@ def selftest(ctx, recs, rejects):
         return i, c, "element_ne_scalar"
 
     def c_len():
-        i, c = pick("dispatch", lambda r: r["obs"]["kind"] == "rejected" and r["id"] not in rejects)
+        i, c = pick("dispatch", lambda r: r["obs"]["kind"] == "rejected" and r["id"] not in rejects
+                    and all(e["kind"] == "rejected" for e in r["case"]["allowed"]))
         c["obs"] = {"kind": "array", "len": 1, "eq": [True]}
         return i, c, "mismatched_lengths_not_rejected"
 
